@@ -395,10 +395,75 @@ func (e *eng) dump(txn statedb.ReadTxn) string {
 		fmt.Fprintf(&sb, " u=%s n=%s nlb=%s rev=%s", seqS(t.Prefix(txn, uIndex.Query([]byte{}))), seqS(t.Prefix(txn, nIndex.Query([]byte{}))),
 			seqS(t.LowerBound(txn, nIndex.Query([]byte{}))), seqS(t.LowerBound(txn, statedb.ByRevision[*Obj](0))))
 		fmt.Fprintf(&sb, " lu=%s ln=%s", seqS(t.Prefix(txn, luIndex.Query([]byte{}, 0))), seqS(t.Prefix(txn, lnIndex.Query([]byte{}, 0))))
+		// point lookups: every object the snapshot lists is found under its primary key, under each of its
+		// unique keys and among the objects of each of its non-unique keys (descents that compare node prefixes,
+		// not only full iteration)
+		var miss []string
+		for o, rev := range t.All(txn) {
+			if g, grev, ok := t.Get(txn, idIndex.Query(o.ID)); !ok || g != o || grev != rev {
+				miss = append(miss, "id:"+hx.Hex(o.ID))
+			}
+			first := true
+			for p := range t.Prefix(txn, idIndex.Query(o.ID)) {
+				if first && p != o {
+					miss = append(miss, "pfx:"+hx.Hex(o.ID))
+				}
+				first = false
+			}
+			if first {
+				miss = append(miss, "pfx0:"+hx.Hex(o.ID))
+			}
+			for _, k := range o.U {
+				if g, _, ok := t.Get(txn, uIndex.Query(k)); !ok || g != o {
+					miss = append(miss, "u:"+hx.Hex(k))
+				}
+			}
+			for _, k := range o.N {
+				in := false
+				for g := range t.List(txn, nIndex.Query(k)) {
+					in = in || g == o
+				}
+				if !in {
+					miss = append(miss, "n:"+hx.Hex(k))
+				}
+			}
+		}
+		fmt.Fprintf(&sb, " miss=%v", miss)
 		ini, _ := t.Initialized(txn)
 		fmt.Fprintf(&sb, " init=%v pend=%v;", ini, t.PendingInitializers(txn))
 	}
 	return sb.String()
+}
+
+// interfere: another reader (its own ReadTxn) asks point and list queries through every index of the table and
+// consumes them; nothing it does may change what a sequence held by someone else yields
+func (e *eng) interfere(tab int) {
+	defer func() { recover() }()
+	t := e.tabs[tab]
+	txn := e.db.ReadTxn()
+	n := 0
+	for o := range t.All(txn) {
+		for range t.List(txn, idIndex.Query(o.ID)) {
+		}
+		for _, k := range o.U {
+			for range t.List(txn, uIndex.Query(k)) {
+			}
+		}
+		for _, k := range o.N {
+			for range t.List(txn, nIndex.Query(k)) {
+			}
+		}
+		for _, k := range o.LU {
+			for range t.List(txn, luIndex.Query(k.Data, statedb.PrefixLen(k.Len))) {
+			}
+		}
+		for range t.LowerBound(txn, idIndex.Query(o.ID)) {
+			break
+		}
+		if n++; n >= 3 {
+			break
+		}
+	}
 }
 
 func isClosed(ch <-chan struct{}) bool {
@@ -821,14 +886,26 @@ func (e *eng) Op(f []string, line string, out *hx.Out) {
 			} else {
 				res = "none"
 			}
-		case "list":
-			res = seqS(t.List(txn, mkq()))
-		case "prefix":
-			res = seqS(t.Prefix(txn, mkq()))
-		case "lb":
-			res = seqS(t.LowerBound(txn, mkq()))
-		case "all":
-			res = seqS(t.All(txn))
+		case "list", "prefix", "lb", "all":
+			mk := func() iter.Seq2[*Obj, statedb.Revision] {
+				switch f[3] {
+				case "list":
+					return t.List(txn, mkq())
+				case "prefix":
+					return t.Prefix(txn, mkq())
+				case "lb":
+					return t.LowerBound(txn, mkq())
+				}
+				return t.All(txn)
+			}
+			// the sequence is taken, another reader queries the same indexes, and only then is it consumed (twice):
+			// it must yield what an immediately consumed one yields
+			held := mk()
+			e.interfere(tab)
+			res = seqS(held)
+			if again, fresh := seqS(held), seqS(mk()); res != fresh || again != fresh {
+				bad = " !BAD:C01:held-sequence-changed-by-other-reader-or-by-consuming-it"
+			}
 		case "num":
 			res = strconv.Itoa(t.NumObjects(txn))
 		case "rev":
@@ -861,7 +938,7 @@ func (e *eng) Op(f []string, line string, out *hx.Out) {
 		// spec-level oracle (independent Go reference) for queries on the live state
 		if f[1] == "txn" || f[1] == "fresh" {
 			if want, ok := e.ref.query(f[1] == "txn", tab, f[3:]); ok && want != res {
-				bad = fmt.Sprintf(" !BAD:C04:query(want:%s)", strings.ReplaceAll(want, " ", "_"))
+				bad += fmt.Sprintf(" !BAD:C04:query(want:%s)", strings.ReplaceAll(want, " ", "_"))
 			}
 		}
 		emit(tag, "%s", res)
